@@ -198,6 +198,7 @@ type tObs struct {
 	State     map[string]map[string]map[string]val.Val // table -> uuid -> row
 	Refs      []oRef
 	Update    database.Update
+	gcOrPrune bool // the committed state differs from what the operations alone produce (rows collected / references pruned)
 }
 
 // state reads the whole database through Database.List / GetReferences.
